@@ -131,12 +131,23 @@ def fake_digest(tag, step):
     return d
 
 
-def build_id(step, fingerprint, platform, relax=True, tag=b"bid"):
-    """StepIR.getDigestCoro(...) with digests of the dependencies supplied by `fake_digest`"""
+def build_id(step, fingerprint, platform, relax=True, tag=b"bid", weak_tag=None):
+    """StepIR.getDigestCoro(...) with digests of the dependencies supplied by `fake_digest`.
+    With `weak_tag` the providers of weakly used tools get a different digest (another variant is installed)."""
     ir = _ir(step)
+    weak_vids = set()
+    if weak_tag is not None:
+        weak = set(step.toolDepWeak)
+        weak_vids = {t.getStep().getVariantId() for n, t in step.getTools().items() if n in weak}
+        strong_vids = {t.getStep().getVariantId() for n, t in step.getTools().items() if n not in weak} | \
+            {a.getVariantId() for a in step.getArguments()}
+        sb = step.getSandbox()
+        if sb:
+            strong_vids.add(sb.getStep().getVariantId())
+        weak_vids -= strong_vids   # the same step also used strongly: its digest stays
 
     async def calc(steps):
-        return [fake_digest(tag, s) for s in steps]
+        return [fake_digest(weak_tag if s.getVariantId() in weak_vids else tag, s) for s in steps]
 
     return run_coro(ir.getDigestCoro(calc, fingerprint=fingerprint, platform=platform, relaxTools=relax))
 
